@@ -735,6 +735,10 @@ func (l *segment) advance() error {
 func (l *segment) close() error {
 	l.mu.Lock()
 	defer l.mu.Unlock()
+	// Blocks appended in buffered mode have been acknowledged, write them out.
+	if err := l.flush(); err != nil {
+		return err
+	}
 	if err := l.file.Close(); err != nil {
 		return err
 	}
